@@ -78,21 +78,16 @@ func (w *World) quietWindow(st *Stage) time.Duration {
 	if w.ResyncHint > 0 {
 		win += 2*w.ResyncHint + w.ResyncHint/5
 	}
-	retries := 0
-	for _, q := range w.QEvents {
-		if q.Kind == "retry" {
-			retries++
+	// A failing item is re-queued with per-item exponential back-off (5 ms doubling,
+	// capped at 1000 s). The delay pending after the last failure is at most the sum of
+	// all earlier delays, i.e. at most the time the failures have been going on for.
+	if n := len(w.Errs); n > 0 {
+		span := w.Errs[n-1].Sim - w.Errs[0].Sim
+		b := span + span/8 + time.Second
+		if b > 1001*time.Second {
+			b = 1001 * time.Second
 		}
-	}
-	if retries > 0 {
-		b := 5 * time.Millisecond
-		for i := 1; i < retries && b < 1000*time.Second; i++ {
-			b *= 2
-		}
-		if b > 1000*time.Second {
-			b = 1000 * time.Second
-		}
-		win += 2 * b
+		win += b
 	}
 	win += w.ExtraQuiet
 	return win
